@@ -723,10 +723,12 @@ def translate_bezier_small():
     return {"sha": sha, "evaluate": f"dc {args[0]} {args[1]}", "curveOrder": co, "patchOrder": [p0, p1]}
 
 
+SITES = [("bezier.py: BezierCurve.evaluate (delegation), BezierCurve.order, BezierPatch.order (whole bodies)", translate_bezier_small, ["C19FnCurve"]),
+         ("aabb.py: AABB.__init__ corner attributes; dim / mini / maxi / span / center / is_empty (whole bodies)", translate_aabb, ["C19FnAABB"])]
+for _f in ("sample_sphere", "sample_ball", "sample_AABB", "sample_polyline", "sample_surface"):
+    SITES.append((f"sampling.py: {_f} (WHOLE body read imperatively: statement order, guards, dispatch, loop, stores, defaults)",
+                  (lambda f=_f: translate_function(f)), [SPECS[_f]["file"]]))
+
+
 def translate():
-    sites = [T.site("bezier.py: BezierCurve.evaluate (delegation), BezierCurve.order, BezierPatch.order (whole bodies)", translate_bezier_small),
-             T.site("aabb.py: AABB.__init__ corner attributes; dim / mini / maxi / span / center / is_empty (whole bodies)", translate_aabb)]
-    for f in ("sample_sphere", "sample_ball", "sample_AABB", "sample_polyline", "sample_surface"):
-        sites.append(T.site(f"sampling.py: {f} (WHOLE body read imperatively: statement order, guards, dispatch, loop, stores, defaults)",
-                            (lambda f=f: translate_function(f))))
-    return sites
+    return [T.site(n, f) for n, f, _ in SITES]
